@@ -6,6 +6,7 @@ CONSTANTS
   MaxOps = 1
   RawKeyLookup = TRUE
   RawKeyDup = TRUE
+  RawKeyMerge = FALSE
 INVARIANT TypeOK
 INVARIANT EditsAreHandEdits
 INVARIANT ListEachOnce
